@@ -102,11 +102,11 @@ pub fn one_run(prop: &str, seed: u64, run: u64, keep_log: bool) -> RunResult {
         profile.min_steps = 560;
         profile.max_steps = 700;
     }
-    if matches!(prop, "C15" | "C18" | "C01") && cfg.kind == WorldKind::VammDirect && (rng.chance(1, 60) || force_marathon()) {
+    if matches!(prop, "C15" | "C18" | "C01") && cfg.kind == WorldKind::VammDirect && (rng.chance(1, 25) || force_marathon()) {
         profile.marathon = Some("blocks");
         profile.long_busy = false;
-        profile.min_steps = 1100;
-        profile.max_steps = 1300;
+        profile.min_steps = 2600;
+        profile.max_steps = 3000;
         profile.w = [90, 0, 2, 0, 4, 0, 0];
     }
     if matches!(prop, "C05" | "C06" | "C07") && cfg.kind == WorldKind::Standard && cfg.vamms.len() == 1 && !profile.long_busy && (rng.chance(1, 30) || force_marathon()) {
